@@ -425,6 +425,12 @@ def check_nonempty(ctx):
             before = len(ctx.obs)
             ctx.guard("C14.d NONEMPTY", "seeded-splits", lambda: c07.check_driver_c07(ctx, cands[0][1], gen, sel), cands[0][1].loc())
             ctx.obs[before:] = [o for o in ctx.obs[before:] if "NONEMPTY" in o.rule or o.status == "UNDECIDED"]  # violations of the drivers' other rules belong to C07 / C09
+            # ... and the greedy loop ends for every threshold (F-30): a removed interval can never exceed it again
+            before = len(ctx.obs)
+            ctx.guard("C14.e TERMINATION", "seeded-greedy", lambda: c07.check_selector_c07(ctx, sel), sel.loc())
+            ctx.obs[before:] = [o for o in ctx.obs[before:] if o.key == "zeroing" or o.status == "UNDECIDED"]
+            for o in ctx.obs[before:]:
+                o.rule = f"C14.e TERMINATION ({o.rule})"
     cls = ctx.P.public_class(AD, "CircularBinarySegmentation")
     pred = ctx.P.lookup_method(cls, "_predict")
     cands = find_driver_call(ctx, pred)
@@ -436,6 +442,11 @@ def check_nonempty(ctx):
             before = len(ctx.obs)
             ctx.guard("C14.d NONEMPTY", "circular-candidates", lambda: c09.check_driver_c09(ctx, drv, gen, sel, inner), drv.loc())
             ctx.obs[before:] = [o for o in ctx.obs[before:] if "NONEMPTY" in o.rule or o.status == "UNDECIDED"]  # violations of the drivers' other rules belong to C07 / C09
+            before = len(ctx.obs)
+            ctx.guard("C14.e TERMINATION", "circular-greedy", lambda: c09.check_selector_c09(ctx, sel), sel.loc())
+            ctx.obs[before:] = [o for o in ctx.obs[before:] if o.key == "zeroing" or o.status == "UNDECIDED"]
+            for o in ctx.obs[before:]:
+                o.rule = f"C14.e TERMINATION ({o.rule})"
     # moving window: at least one scored position for n >= 2b, b >= 1
     mw = ctx.P.public_class(CD, "MovingWindow")
     ts = ctx.P.lookup_method(mw, "_transform_scores")
